@@ -150,6 +150,7 @@ type compiler struct {
 	Optimize    bool
 	Returns     []int
 	FuncName    string
+	depth       int
 }
 
 func compilePkgs(g *lookup, pkgs []*token, optimize bool) (ins []instruction, slots int, err error) {
@@ -302,6 +303,10 @@ func (c *compiler) compile(tok *token) []instruction {
 		panicf("missing expression")
 	}
 	c.cur = tok
+	c.depth++
+	if c.depth > maxDepth { // e.g. a chain of 10000 binary operators: a left-nested tree
+		panicf("nested too deeply")
+	}
 	var res []instruction
 	switch tok.Symbol {
 	case "(int)":
@@ -894,6 +899,7 @@ func (c *compiler) compile(tok *token) []instruction {
 		}
 		res[n].Pos = newPos(c.Globals, tok.Pos.Filename, c.FuncName, tok.Pos.Line, tok.Pos.Column)
 	}
+	c.depth--
 	return res
 }
 
